@@ -56,6 +56,9 @@ pub struct S07 {
     /// the end of the last 64-bit word (no slack after the last codeword)
     #[serde(default)]
     pub align_tail: bool,
+    /// scale: seeks to positions up to 2^62 bits over the sparse backends
+    #[serde(default)]
+    pub huge: Option<crate::giant::HugeSeek>,
 }
 
 pub struct C07;
@@ -79,6 +82,24 @@ impl Family for C07 {
         let e = if index % 2 == 0 { En::BE } else { En::LE };
         let kind = RdKind::ALL[((index / 2) % 5) as usize];
         let wb = kind.word_bits();
+        if index % 40 == 13 || crate::giant::is_giant_index(index) {
+            // (index % 40 is correlated with the reader selection above)
+            let kind = *rng.pick(&RdKind::ALL);
+            let wb = kind.word_bits();
+            let e = if rng.chance(1, 2) { En::BE } else { En::LE };
+            let long_skip = crate::giant::is_giant_index(index) && wb >= 32;
+            let g = crate::giant::gen_huge_seek(rng, kind, long_skip);
+            return S07 {
+                e,
+                kind,
+                backend: RdBackend::MemStrict,
+                elems: Vec::new(),
+                ops: Vec::new(),
+                lockstep: false,
+                align_tail: false,
+                huge: Some(g),
+            };
+        }
         let n = rng.usize_range(1, 12);
         let mut elems = gen_elems(rng, n, true);
         if kind == RdKind::B8 {
@@ -142,10 +163,14 @@ impl Family for C07 {
             ops,
             lockstep: rng.chance(1, 4),
             align_tail,
+            huge: None,
         }
     }
 
     fn exec(s: &S07, ctx: &mut Ctx) {
+        if let Some(g) = &s.huge {
+            return crate::giant::huge_seek("C07", s.e, g, ctx);
+        }
         ctx.step(vec![format!("e={:?}", s.e), "op=write".into()]);
         let mut w = match write_stream(s.e, Wd::U64, &WrBackend::Vec, &[], &s.elems, ctx) {
             Ok(w) => w,
@@ -319,6 +344,9 @@ impl Family for C07 {
     }
 
     fn shrink(s: &S07) -> Vec<S07> {
+        if let Some(g) = &s.huge {
+            return crate::giant::shrink_huge_seek(g).into_iter().map(|g2| S07 { huge: Some(g2), ..s.clone() }).collect();
+        }
         let mut out = Vec::new();
         for ops in shrink_list(&s.ops) {
             out.push(S07 { ops, ..s.clone() });
@@ -376,18 +404,20 @@ impl Family for C07 {
     }
 
     fn rule() -> &'static str {
-        "one case = (endianness, reader {buffered u8..u64, unbuffered}, backend {zero-extended, strict, vector/slice writer read back, WordAdapter over SimDisk, WordAdapter over std BufReader; device backends with benign faults at 0-30% and, in a tenth of the runs, one seek error or hard error}, valid stream of 1-12 items, history of 2-40 ops among read-the-item-here (codes with table options, except on u8 readers), fixed-width reads, skips, peeks, unary, io::Read, and seeks to item starts / word boundaries -1,0,+1 / current position / 0 / end / arbitrary p<=len). bit_pos() is checked after every op. distinct_nontrivial = distinct (endianness, reader, op kind, measured buffer fill before the op, width argument, previous op kind) signatures"
+        "one case = (endianness, reader {buffered u8..u64, unbuffered}, backend {zero-extended, strict, vector/slice writer read back, WordAdapter over SimDisk, WordAdapter over std BufReader; device backends with benign faults at 0-30% and, in a tenth of the runs, one seek error or hard error}, valid stream of 1-12 items, history of 2-40 ops among read-the-item-here (codes with table options, except on u8 readers), fixed-width reads, skips, peeks, unary, io::Read, and seeks to item starts / word boundaries -1,0,+1 / current position / 0 / end / arbitrary p<=len). bit_pos() is checked after every op. distinct_nontrivial = distinct (endianness, reader, op kind, measured buffer fill before the op, width argument, previous op kind) signatures Scale scenarios (one run in 40): a stream of up to 2^62 bits (real head, zero run, real tail) over a sparse word source or the real WordAdapter (directly / through std BufReader) over a sparse byte source; seeks to positions around 2^32, 2^33, 2^35, 2^40, 2^48, 2^56, 2^62 bits, reads / read_unary / skips there, bit_pos after every op; one run in 100 000 skips over 2^32 bits in one call."
     }
 
     fn components() -> (Vec<&'static str>, Vec<&'static str>) {
         (
             vec!["BitSeek for BufBitReader (bit_pos, set_bit_pos) u8..u64", "BitSeek for BitReader", "WordSeek of MemWordReader / MemWordWriterVec / MemWordWriterSlice / WordAdapter", "std BufReader (Seek)", "code readers with and without tables", "io::Read views"],
-            vec!["SimDisk (benign faults, seek errors)"],
+            vec!["SimDisk (benign faults, seek errors)", "sparse zero-run word source / byte source (scale scenarios)"],
         )
     }
 
     fn required_probes(_t: Tier) -> Vec<&'static str> {
         vec![
+            "scale.position_above_2^32",
+            "scale.skip_2^32",
             "c07.seek_unaligned",
             "c07.seek_to_end",
             "c07.seek_with_more_than_a_word_buffered",
